@@ -26,6 +26,8 @@ CLAIMED = {
             "M=3 bins 1D, 2x2 2D, growth by <=3 bins, ~390 (derivation, mutation, side) instances (quick); thorough adds the remaining combinations", "DESIGN.md 5/C12"),
     "C08": ("Bounded symbolic model checking of save_json/parse_json/load_json, create_from_dict, require_compatible_version, find_subclass, to_dict/_kwargs_from_dict/from_dict of every histogram class and every binning class, HistogramCollection.to_dict/from_dict: with symbolic contents, errors2, missed values, binning parameters the parsed object has the same class, per-axis binning class/parameters/right-edge flag/adaptivity, term-equal edges/contents/errors2/missed, equal dtype, keep_missed and metadata, compares == and re-serialises to the identical tree; version gate for symbolic release numbers via the real packaging comparison.",
             "2 bins per axis; classes 1D, 2D, 3D, the seven transformed classes, collection of 2; seven binning kinds; json text layer and open() are stubs (tree in = tree out)", "DESIGN.md 5/C08"),
+    "C13": ("Bounded symbolic model checking of dtype inference (HistogramBase.__init__, h1 / h facades, calculate_*_frequencies), _coerce_dtype/set_dtype/_eval_dtype and the coercions in fill, fill_n, + - += -= * / normalize merge over all supported dtypes: after the operation h.dtype == frequencies.dtype == errors2.dtype, the dtype is numpy's promotion of the operands, values equal the exact reference (no truncation), an explicit dtype change is accepted iff lossless by the statement's rule (symbolic contents around the type limits and with symbolic fractional parts) and otherwise refused with nothing changed.",
+            "2 bins 1D / 2x1 2D, one operation per instance (thorough: all dtype pairs); contents are symbolic integers, float weights/factors symbolic multiples of 1/4, so every value is exact in every float type (float16/32 rounding itself is outside R-mode)", "DESIGN.md 5/C13"),
 }
 
 REASONS_NOT_YET = "check not built yet (work in progress; see DESIGN.md section 8 build order)"
